@@ -1,7 +1,7 @@
 (* Run.v — top-level dispatch: TL (TN machine :: args).
    Machines: 1 CMS mem, 3 Bloom mem, 5 HLL mem, 7 Cuckoo mem. *)
 From GX.Model Require Import Base.
-From GX.Runner Require Import RunCMS RunBloom RunHLL RunCuckoo RunTopK.
+From GX.Runner Require Import RunCMS RunCMS2 RunBloom RunHLL RunCuckoo RunTopK.
 
 Definition run_case (c : tok) : tok :=
   match tok_L c with
